@@ -379,4 +379,589 @@ theorem runOverlap_tiles {f : List Row → List Row} {w : Int × Int} {cs outs :
   · rw [← lastStop_spec c rest cl hcl]; exact h3
   · simp [h4]
 
+/-! ## §4 lists of positive-duration rows: decompositions at a time -/
+
+/-- if a list is cut in two ways, the left part of the second cut ending no later than the right
+part of the first cut starts, then the second cut is the earlier one -/
+theorem append_split_sep {L1 L2 M1 M2 : List Row} {t t' : Int} (hpos : PositiveRows (L1 ++ L2))
+    (h : L1 ++ L2 = M1 ++ M2) (hM1 : ∀ x ∈ M1, x.endt ≤ t) (hL2 : ∀ x ∈ L2, t' ≤ x.time) (htt : t ≤ t') :
+    ∃ K, L1 = M1 ++ K ∧ M2 = K ++ L2 := by
+  rcases List.append_eq_append_iff.1 h with ⟨a', h1, h2⟩ | ⟨c', h1, h2⟩
+  · -- M1 = L1 ++ a', L2 = a' ++ M2 : a' must be empty
+    cases a' with
+    | nil => exact ⟨[], by simpa using h1.symm, by simpa using h2.symm⟩
+    | cons x xs =>
+      have hx1 := hM1 x (by rw [h1]; simp)
+      have hx2 := hL2 x (by rw [h2]; simp)
+      have hx3 := hpos x (by rw [h2]; simp)
+      omega
+  · exact ⟨c', h1, h2⟩
+
+/-- a list of positive-duration rows has at most one decomposition into rows ending by `t` followed
+by rows starting from `t` on -/
+theorem sep_unique {A B A' B' : List Row} {t : Int} (hpos : PositiveRows (A ++ B)) (h : A ++ B = A' ++ B')
+    (hA : ∀ x ∈ A, x.endt ≤ t) (hB : ∀ x ∈ B, t ≤ x.time) (hB' : ∀ x ∈ B', t ≤ x.time)
+    (hA' : ∀ x ∈ A', x.endt ≤ t) : A = A' ∧ B = B' := by
+  obtain ⟨K, h1, h2⟩ := append_split_sep hpos h hA' hB (Int.le_refl t)
+  cases K with
+  | nil => exact ⟨by simpa using h1, by simpa using h2.symm⟩
+  | cons x xs =>
+    have hx1 := hA x (by rw [h1]; simp)
+    have hx2 := hB' x (by rw [h2]; simp)
+    have hx3 := hpos x (by rw [h1]; simp)
+    omega
+
+/-- the rows `ctx` as seen from the rows of `l`: the per-row computation with kernel `g` -/
+def ctxMap (wl wr : Int) (g : Row → List Row → Row) (ctx l : List Row) : List Row :=
+  l.map (fun r => g r (ctx.filter (near wl wr r)))
+
+theorem perRow_eq_ctxMap (wl wr : Int) (g : Row → List Row → Row) (rows : List Row) :
+    perRow wl wr g rows = ctxMap wl wr g rows rows := rfl
+
+theorem ctxMap_append (wl wr : Int) (g : Row → List Row → Row) (ctx a b : List Row) :
+    ctxMap wl wr g ctx (a ++ b) = ctxMap wl wr g ctx a ++ ctxMap wl wr g ctx b := by
+  simp [ctxMap]
+
+theorem ctxMap_nil (wl wr : Int) (g : Row → List Row → Row) (ctx : List Row) : ctxMap wl wr g ctx [] = [] := rfl
+
+/-- interval-preserving kernel -/
+def Keeps (g : Row → List Row → Row) : Prop := ∀ r ctx, (g r ctx).time = r.time ∧ (g r ctx).endt = r.endt
+
+theorem ctxMap_mem {wl wr : Int} {g : Row → List Row → Row} (hg : Keeps g) {ctx l : List Row} {y : Row}
+    (hy : y ∈ ctxMap wl wr g ctx l) : ∃ r ∈ l, y.time = r.time ∧ y.endt = r.endt := by
+  simp only [ctxMap, List.mem_map] at hy
+  obtain ⟨r, hr, rfl⟩ := hy
+  exact ⟨r, hr, hg r _⟩
+
+theorem ctxMap_positive {wl wr : Int} {g : Row → List Row → Row} (hg : Keeps g) {ctx l : List Row}
+    (h : PositiveRows l) : PositiveRows (ctxMap wl wr g ctx l) := by
+  intro y hy
+  obtain ⟨r, hr, h1, h2⟩ := ctxMap_mem hg hy
+  have := h r hr; omega
+
+theorem ctxMap_sorted {wl wr : Int} {g : Row → List Row → Row} (hg : Keeps g) {ctx l : List Row}
+    (h : SortedByTime l) : SortedByTime (ctxMap wl wr g ctx l) := by
+  rw [sortedByTime_iff_pairwise] at *
+  simp only [ctxMap, List.pairwise_map]
+  refine h.imp ?_
+  intro a b hab
+  rw [(hg a _).1, (hg b _).1]; exact hab
+
+/-- rows that end before the window of `r` opens or start after it closes do not matter -/
+theorem filter_near_ctx (wl wr : Int) (r : Row) (D I F : List Row)
+    (hD : ∀ n ∈ D, n.endt ≤ r.time - wl) (hF : ∀ n ∈ F, r.endt + wr ≤ n.time) :
+    (D ++ I ++ F).filter (near wl wr r) = I.filter (near wl wr r) := by
+  have h1 : D.filter (near wl wr r) = [] := by
+    rw [List.filter_eq_nil_iff]
+    intro n hn
+    have := hD n hn
+    simp only [near, Bool.and_eq_true, decide_eq_true_eq, not_and]
+    intro; omega
+  have h2 : F.filter (near wl wr r) = [] := by
+    rw [List.filter_eq_nil_iff]
+    intro n hn
+    have := hF n hn
+    simp only [near, Bool.and_eq_true, decide_eq_true_eq, not_and]
+    intro; omega
+  simp [List.filter_append, h1, h2]
+
+theorem ctxMap_congr {wl wr : Int} {g : Row → List Row → Row} {ctx ctx' l : List Row}
+    (h : ∀ r ∈ l, ctx.filter (near wl wr r) = ctx'.filter (near wl wr r)) :
+    ctxMap wl wr g ctx l = ctxMap wl wr g ctx' l := by
+  simp only [ctxMap]
+  apply List.map_congr_left
+  intro r hr
+  rw [h r hr]
+
+/-! ## §5 splits of good chunks exist -/
+
+theorem split_good_early_ok {c : Chunk} (hg : c.good = true) (t : Int) : ∃ c1 c2, c.split t true = .ok (c1, c2) := by
+  have hg' := hg
+  simp only [Chunk.good, Bool.and_eq_true] at hg'
+  obtain ⟨hwf, hsimple⟩ := hg'
+  obtain ⟨hsub, rid, hrid, hsup⟩ := (Chunk.simple_iff c).1 hsimple
+  obtain ⟨h0, hse, hs, hpos, hin⟩ := (Chunk.wf_iff c).1 hwf
+  have hex : ∃ v, splitData c t true = .ok v := by
+    unfold splitData
+    split; · exact ⟨_, rfl⟩
+    split; · exact ⟨_, rfl⟩
+    exact splitArray_early_ok _ _
+  obtain ⟨⟨d1, d2, t'⟩, hv⟩ := hex
+  obtain ⟨ha, hst, hts, hl, hr⟩ := splitData_wf hwf hv
+  have hin1 : ∀ x ∈ d1, c.start ≤ x.time ∧ x.endt ≤ t' :=
+    fun x hx => ⟨(hin x (by rw [← ha]; simp [hx])).1, hl x hx⟩
+  have hin2 : ∀ x ∈ d2, t' ≤ x.time ∧ x.endt ≤ c.stop :=
+    fun x hx => ⟨hr x hx, (hin x (by rw [← ha]; simp [hx])).2⟩
+  exact ⟨_, _, split_simple_ok hsub hsup h0 hst hts hin1 hin2 hv⟩
+
+theorem split_good_strict_ok {c : Chunk} (hg : c.good = true) (t : Int)
+    (hns : ¬ ∃ r ∈ c.rows, r.straddles t) : ∃ c1 c2, c.split t false = .ok (c1, c2) := by
+  have hg' := hg
+  simp only [Chunk.good, Bool.and_eq_true] at hg'
+  obtain ⟨hwf, hsimple⟩ := hg'
+  obtain ⟨hsub, rid, hrid, hsup⟩ := (Chunk.simple_iff c).1 hsimple
+  obtain ⟨h0, hse, hs, hpos, hin⟩ := (Chunk.wf_iff c).1 hwf
+  have hnn : ∀ r ∈ c.rows, 0 ≤ r.time := by intro r hr; have := hin r hr; omega
+  have hex : ∃ v, splitData c t false = .ok v := by
+    cases hv : splitData c t false with
+    | ok v => exact ⟨v, rfl⟩
+    | error e =>
+      obtain ⟨h1, h2, hsa⟩ := splitData_error hv
+      have := splitArray_strict_error hsa
+      subst this
+      exact absurd (straddler_of_splitArray_refuses hnn hsa) hns
+  obtain ⟨⟨d1, d2, t'⟩, hv⟩ := hex
+  obtain ⟨ha, hst, hts, hl, hr⟩ := splitData_wf hwf hv
+  have hin1 : ∀ x ∈ d1, c.start ≤ x.time ∧ x.endt ≤ t' :=
+    fun x hx => ⟨(hin x (by rw [← ha]; simp [hx])).1, hl x hx⟩
+  have hin2 : ∀ x ∈ d2, t' ≤ x.time ∧ x.endt ≤ c.stop :=
+    fun x hx => ⟨hr x hx, (hin x (by rw [← ha]; simp [hx])).2⟩
+  exact ⟨_, _, split_simple_ok hsub hsup h0 hst hts hin1 hin2 hv⟩
+
+/-- `split_good` with the fields spelled out -/
+theorem split_good' {c : Chunk} {t : Int} {early : Bool} {c1 c2 : Chunk}
+    (hg : c.good = true) (h : c.split t early = .ok (c1, c2)) :
+    ∃ t', c.start ≤ t' ∧ t' ≤ c.stop ∧ t' ≤ max t c.start ∧ (early = false → t' = max (min t c.stop) c.start) ∧
+      c1.start = c.start ∧ c1.stop = t' ∧ c2.start = t' ∧ c2.stop = c.stop ∧
+      c1.dataType = c.dataType ∧ c2.dataType = c.dataType ∧ c1.runId = c.runId ∧ c2.runId = c.runId ∧
+      c1.rows ++ c2.rows = c.rows ∧ (∀ x ∈ c1.rows, x.endt ≤ t') ∧ (∀ x ∈ c2.rows, t' ≤ x.time) ∧
+      c1.good = true ∧ c2.good = true := by
+  obtain ⟨rid, t', hrid, h1, h2, h3, hc1, hc2, hrows, hl, hr, g1, g2⟩ := split_good hg h
+  obtain ⟨t'', -, hstrict, -, -, hs2, -, -, -⟩ := split_ranges h
+  have e1 : c1.start = c.start := by rw [hc1]
+  have e2 : c1.stop = t' := by rw [hc1]
+  have e3 : c2.start = t' := by rw [hc2]
+  have e4 : c2.stop = c.stop := by rw [hc2]
+  refine ⟨t', h1, h2, h3, ?_, e1, e2, e3, e4, by rw [hc1], by rw [hc2], by rw [hc1, hrid], by rw [hc2, hrid],
+    hrows, hl, hr, g1, g2⟩
+  intro he
+  have := hstrict he
+  have hse : c.start ≤ c.stop := by omega
+  omega
+
+/-- the chunk handed to `compute`: the new chunk, or the cached input followed by it -/
+theorem input_good {rid : String} {old : Option Chunk} {s : Int} {X : Chunk} {S2 P : List Row}
+    (hX : X.good = true) (hXr : X.runId = some rid)
+    (hold : (old = none ∧ S2 = [] ∧ P = [] ∧ s ≤ X.start) ∨
+      (∃ o, old = some o ∧ o.good = true ∧ o.dataType = X.dataType ∧ o.runId = some rid ∧ o.stop = X.start ∧
+        o.rows = S2 ++ P ∧ o.start ≤ s ∧ s ≤ o.stop)) :
+    ∃ I a, (match old with
+         | none => Except.ok X
+         | some o => concatenate [o, X] false) = .ok I ∧
+      I.good = true ∧ I.rows = S2 ++ P ++ X.rows ∧ I.stop = X.stop ∧ I.runId = some rid ∧ I.dataType = X.dataType ∧
+      a = max (min s I.stop) I.start ∧ s ≤ a ∧ I.start ≤ a ∧ a ≤ I.stop ∧
+      (∀ r ∈ X.rows, a ≤ r.time) ∧ (P ≠ [] → a = s) := by
+  have hX' := hX
+  simp only [Chunk.good, Bool.and_eq_true] at hX'
+  obtain ⟨x0, xse, -, -, xin⟩ := (Chunk.wf_iff X).1 hX'.1
+  rcases hold with ⟨rfl, rfl, rfl, hs⟩ | ⟨o, rfl, ho, hdt, hor, hadj, hrows, hs1, hs2⟩
+  · refine ⟨X, X.start, rfl, hX, by simp, rfl, hXr, rfl, by omega, hs, Int.le_refl _, xse, ?_, by simp⟩
+    intro r hr; exact (xin r hr).1
+  · obtain ⟨rid', hr', hcat, hgood⟩ := concat_good2 ho hX hadj hdt (by rw [hor, hXr])
+    rw [hor] at hr'
+    simp only [Option.some.injEq] at hr'
+    subst hr'
+    have ho' := ho
+    simp only [Chunk.good, Bool.and_eq_true] at ho'
+    obtain ⟨o0, ose, -, -, -⟩ := (Chunk.wf_iff o).1 ho'.1
+    refine ⟨_, s, hcat, hgood, by simp [hrows], rfl, rfl, hdt, by simp only; omega, Int.le_refl _, hs1,
+      by simp only; omega, ?_, fun _ => rfl⟩
+    intro r hr; have := (xin r hr).1; omega
+
+/-- The step on good chunks. `S2 ++ P` are the rows of the cached input: the results for `S2` have
+been sent (they end by `s`), those for `P` are pending (they start from `s` on).  The call
+succeeds; it sends the results for `Qo` and keeps those for `Qc`, where `P ++ X.rows = Qo ++ Qc`;
+every row of `Qo` ends at least `2·wr + 1` before the end of the input; the new input cache
+drops `D2`, rows ending at least `2·wl + 1` before the new `sent_until`. -/
+theorem step1_good {g : Row → List Row → Row} (hg : Keeps g) {wl wr : Int} (hwl : 0 ≤ wl) (hwr : 0 ≤ wr)
+    {rid : String} {old : Option Chunk} {s : Int} {X : Chunk} {S2 P : List Row}
+    (hX : X.good = true) (hXr : X.runId = some rid)
+    (hold : (old = none ∧ S2 = [] ∧ P = [] ∧ s ≤ X.start) ∨
+      (∃ o, old = some o ∧ o.good = true ∧ o.dataType = X.dataType ∧ o.runId = some rid ∧ o.stop = X.start ∧
+        o.rows = S2 ++ P ∧ o.start ≤ s ∧ s ≤ o.stop))
+    (hS2 : ∀ r ∈ S2, r.endt ≤ s) (hP : ∀ r ∈ P, s ≤ r.time) :
+    ∃ out cr ci Qo Qc D2 S2',
+      step1 (perRow wl wr g) (wl, wr) rid old s X = .ok (out, cr, ci) ∧
+      P ++ X.rows = Qo ++ Qc ∧
+      out.rows = ctxMap wl wr g (S2 ++ P ++ X.rows) Qo ∧
+      cr.rows = ctxMap wl wr g (S2 ++ P ++ X.rows) Qc ∧
+      (∀ r ∈ Qo, r.endt ≤ X.stop - 2 * wr - 1) ∧ (∀ r ∈ Qo ++ Qc, s ≤ r.time) ∧
+      ci.good = true ∧ ci.dataType = X.dataType ∧ ci.runId = some rid ∧ ci.stop = X.stop ∧
+      ci.start ≤ cr.start ∧ cr.start ≤ ci.stop ∧ s ≤ cr.start ∧
+      S2 ++ Qo = D2 ++ S2' ∧ ci.rows = S2' ++ Qc ∧
+      (∀ n ∈ D2, n.endt ≤ cr.start - 2 * wl - 1) ∧ (∀ r ∈ S2', r.endt ≤ cr.start) ∧
+      (∀ r ∈ Qc, cr.start ≤ r.time) := by
+  obtain ⟨I, a, hI, hIg, hIrows, hIstop, hIrid, hIdt, ha, hsa, hIa, haI, hXa, hPa⟩ := input_good hX hXr hold
+  have hIg' := hIg
+  simp only [Chunk.good, Bool.and_eq_true] at hIg'
+  obtain ⟨hIwf, hIsimple⟩ := hIg'
+  obtain ⟨hIsub, rid', hrid', hIsup⟩ := (Chunk.simple_iff I).1 hIsimple
+  rw [hIrid] at hrid'; simp only [Option.some.injEq] at hrid'; subst hrid'
+  obtain ⟨hI0, hIse, hIsorted, hIpos, hIin⟩ := (Chunk.wf_iff I).1 hIwf
+  have hPa' : ∀ r ∈ P, a ≤ r.time := by
+    intro r hr
+    have : P ≠ [] := by intro h; rw [h] at hr; simp at hr
+    rw [hPa this]; exact hP r hr
+  have hQa : ∀ r ∈ P ++ X.rows, a ≤ r.time := by
+    intro r hr
+    rcases List.mem_append.1 hr with h | h
+    · exact hPa' r h
+    · exact hXa r h
+  -- the result chunk
+  have hRrows : perRow wl wr g I.rows = ctxMap wl wr g I.rows S2 ++ ctxMap wl wr g I.rows (P ++ X.rows) := by
+    rw [perRow_eq_ctxMap, ← ctxMap_append, hIrows, List.append_assoc]
+  have hRin : ∀ x ∈ perRow wl wr g I.rows, I.start ≤ x.time ∧ x.endt ≤ I.stop := by
+    intro x hx
+    obtain ⟨r, hr, h1, h2⟩ := ctxMap_mem hg (by rw [perRow_eq_ctxMap] at hx; exact hx)
+    have := hIin r hr; omega
+  have hR := mkChunk_plain (dt := outType) (k := outKind) (rid := rid) (tg := 1000)
+    (sup := some [⟨rid, I.start, I.stop⟩]) hI0 hIse hRin (Or.inr rfl)
+  have hRpos : PositiveRows (perRow wl wr g I.rows) := by
+    rw [perRow_eq_ctxMap]; exact ctxMap_positive hg hIpos
+  have hRg : (Chunk.good ⟨outType, outKind, some rid, I.start, I.stop, perRow wl wr g I.rows, none,
+      [⟨rid, I.start, I.stop⟩], 1000⟩) = true := by
+    simp only [Chunk.good, Bool.and_eq_true]
+    refine ⟨(Chunk.wf_iff _).2 ⟨hI0, hIse, ?_, hRpos, hRin⟩, (Chunk.simple_iff _).2 ⟨rfl, rid, rfl, rfl⟩⟩
+    rw [perRow_eq_ctxMap]; exact ctxMap_sorted hg hIsorted
+  -- drop what has been sent
+  have hns : ¬ ∃ r ∈ perRow wl wr g I.rows, r.straddles s := by
+    rintro ⟨y, hy, hy1, hy2⟩
+    rw [hRrows] at hy
+    rcases List.mem_append.1 hy with h | h
+    · obtain ⟨r, hr, -, h2⟩ := ctxMap_mem hg h
+      have := hS2 r hr; omega
+    · obtain ⟨r, hr, h1, -⟩ := ctxMap_mem hg h
+      have := hQa r hr; omega
+  obtain ⟨r0, R', hs1⟩ := split_good_strict_ok hRg s hns
+  obtain ⟨t1, -, -, -, ht1, -, -, hR's, hR'e, -, -, -, -, hrows1, hl1, hr1, -, hR'g⟩ := split_good' hRg hs1
+  have ht1 : t1 = a := by rw [ht1 rfl, ha]
+  subst ht1
+  have hR'rows : R'.rows = ctxMap wl wr g I.rows (P ++ X.rows) := by
+    have := sep_unique (t := t1) (by rw [hrows1]; exact hRpos) (hrows1.trans hRrows) hl1 hr1
+      (by
+        intro y hy
+        obtain ⟨r, hr, h1, -⟩ := ctxMap_mem hg hy
+        have := hQa r hr; omega)
+      (by
+        intro y hy
+        obtain ⟨r, hr, -, h2⟩ := ctxMap_mem hg hy
+        have := hS2 r hr; omega)
+    exact this.2
+  -- send what is final, keep the rest
+  obtain ⟨out, cr, hs2⟩ := split_good_early_ok hR'g (I.stop - 2 * wr - 1)
+  obtain ⟨t2, ht2a, ht2b, ht2c, -, hos, hoe, hcs, hce, -, -, -, -, hrows2, hl2, hr2, hog, hcg⟩ := split_good' hR'g hs2
+  rw [hR's] at ht2a ht2c hos
+  rw [hR'e] at ht2b hce
+  obtain ⟨Qo, Qc, hQ, hQo, hQc⟩ : ∃ Qo Qc, P ++ X.rows = Qo ++ Qc ∧ out.rows = ctxMap wl wr g I.rows Qo ∧
+      cr.rows = ctxMap wl wr g I.rows Qc := by
+    have h := hrows2.trans hR'rows
+    simp only [ctxMap] at h
+    obtain ⟨l1, l2, e1, e2, e3⟩ := List.append_eq_map_iff.1 h
+    exact ⟨l1, l2, e1, e2.symm, e3.symm⟩
+  have hQo_end : ∀ r ∈ Qo, r.endt ≤ t2 := by
+    intro r hr
+    have hy : g r (I.rows.filter (near wl wr r)) ∈ out.rows := by
+      rw [hQo]; simp only [ctxMap, List.mem_map]; exact ⟨r, hr, rfl⟩
+    have := hl2 _ hy
+    rw [(hg r _).2] at this; exact this
+  have hQc_start : ∀ r ∈ Qc, t2 ≤ r.time := by
+    intro r hr
+    have hy : g r (I.rows.filter (near wl wr r)) ∈ cr.rows := by
+      rw [hQc]; simp only [ctxMap, List.mem_map]; exact ⟨r, hr, rfl⟩
+    have := hr2 _ hy
+    rw [(hg r _).1] at this; exact this
+  have hog' := hog
+  simp only [Chunk.good, Bool.and_eq_true] at hog'
+  obtain ⟨-, -, -, hopos, hoin⟩ := (Chunk.wf_iff out).1 hog'.1
+  have hQo_final : ∀ r ∈ Qo, r.endt ≤ X.stop - 2 * wr - 1 := by
+    intro r hr
+    have hy : g r (I.rows.filter (near wl wr r)) ∈ out.rows := by
+      rw [hQo]; simp only [ctxMap, List.mem_map]; exact ⟨r, hr, rfl⟩
+    have h1 := hoin _ hy
+    have h2 := hopos _ hy
+    have h3 := hQo_end r hr
+    rw [(hg r _).1, (hg r _).2, hos, hoe] at h1
+    rw [(hg r _).1, (hg r _).2] at h2
+    rw [← hIstop]
+    omega
+  -- cache the input that later results may need
+  obtain ⟨i0, ci, hs3⟩ := split_good_early_ok hIg (cr.start - 2 * wl - 1)
+  obtain ⟨t3, ht3a, ht3b, ht3c, -, -, -, his, hie, -, hidt, -, hirid, hrows3, hl3, hr3, -, hig⟩ := split_good' hIg hs3
+  rw [hcs] at ht3c
+  have hD2 : ∀ n ∈ i0.rows, n.endt ≤ t2 - 2 * wl - 1 := by
+    intro n hn
+    have h1 := hl3 n hn
+    have hn' : n ∈ I.rows := by rw [← hrows3]; simp [hn]
+    have h2 := hIin n hn'
+    have h3 := hIpos n hn'
+    omega
+  have hsplit : (S2 ++ Qo) ++ Qc = i0.rows ++ ci.rows := by
+    rw [hrows3, hIrows, List.append_assoc, List.append_assoc, hQ]
+  obtain ⟨S2', hK1, hK2⟩ := append_split_sep (t := t2 - 2 * wl - 1) (t' := t2)
+    (by rw [hsplit, hrows3]; exact hIpos) hsplit hD2 hQc_start (by omega)
+  refine ⟨out, cr, ci, Qo, Qc, i0.rows, S2', ?_, hQ, ?_, ?_, hQo_final, ?_, hig, by rw [hidt, hIdt], by rw [hirid, hIrid],
+    by rw [hie, hIstop], by rw [his, hcs]; omega, by rw [hcs, hie]; exact ht2b, by rw [hcs]; omega, hK1, hK2,
+    by rw [hcs]; exact hD2, ?_, by rw [hcs]; exact hQc_start⟩
+  · -- the computation itself
+    unfold step1
+    simp only [hI]
+    have hw : ¬ ((decide ((wl, wr).1 < 0) || decide ((wl, wr).2 < 0)) = true) := by
+      simp only [Bool.or_eq_true, decide_eq_true_eq, not_or, Int.not_lt]; exact ⟨hwl, hwr⟩
+    rw [if_neg hw]
+    have hlen : ¬ (I.superrun.length > 1) := by rw [hIsup]; simp
+    rw [if_neg hlen, hIsub, hIsup, hR]
+    simp only [hs1, hs2, hs3]
+  · rw [hQo, hIrows]
+  · rw [hQc, hIrows]
+  · intro r hr
+    rw [← hQ] at hr
+    have := hQa r hr; omega
+  · intro r hr
+    have hr' : r ∈ S2 ++ Qo := by rw [hK1]; simp [hr]
+    rw [hcs]
+    rcases List.mem_append.1 hr' with h | h
+    · have := hS2 r h; omega
+    · exact hQo_end r h
+
+/-! ## §6 the main induction -/
+
+/-- consecutive chunks are adjacent, the first starting at `e` -/
+def Chain (e : Int) : List Chunk → Prop
+  | [] => True
+  | c :: rest => c.start = e ∧ Chain c.stop rest
+
+theorem allRows_cons (c : Chunk) (rest : List Chunk) : allRows (c :: rest) = c.rows ++ allRows rest := by
+  simp [allRows]
+
+theorem chain_rows_later {e : Int} {rest : List Chunk} (hc : Chain e rest) (hg : ∀ c ∈ rest, c.good = true) :
+    ∀ n ∈ allRows rest, e ≤ n.time := by
+  induction rest generalizing e with
+  | nil => intro n hn; simp [allRows] at hn
+  | cons c rest ih =>
+    intro n hn
+    obtain ⟨h1, h2⟩ := hc
+    have hcg := hg c (by simp)
+    simp only [Chunk.good, Bool.and_eq_true] at hcg
+    obtain ⟨-, cse, -, -, cin⟩ := (Chunk.wf_iff c).1 hcg.1
+    rw [allRows_cons] at hn
+    rcases List.mem_append.1 hn with h | h
+    · have := (cin n h).1; omega
+    · have := ih h2 (fun c hc => hg c (by simp [hc])) n h; omega
+
+theorem flatMap_rows_map_wrap (cs : List Chunk) : cs.flatMap (·.rows) = allRows cs := rfl
+
+theorem iterLoop_whole {g : Row → List Row → Row} (hg : Keeps g) {wl wr : Int} (hwl : 0 ≤ wl) (hwr : 0 ≤ wr)
+    (rid kind dt : String) (T : List Row) :
+    ∀ (rest : List Chunk) (old : Option Chunk) (crd : Dict Chunk) (s : Int) (buf : Chunk) (Dtot S2 P : List Row),
+    buf.good = true → buf.runId = some rid → buf.dataType = dt →
+    (∀ c ∈ rest, c.good = true ∧ c.runId = some rid ∧ c.dataType = dt) →
+    Chain buf.stop rest →
+    ((old = none ∧ S2 = [] ∧ P = [] ∧ s ≤ buf.start) ∨
+      (∃ o, old = some o ∧ o.good = true ∧ o.dataType = dt ∧ o.runId = some rid ∧ o.stop = buf.start ∧
+        o.rows = S2 ++ P ∧ o.start ≤ s ∧ s ≤ o.stop)) →
+    (∀ r ∈ S2, r.endt ≤ s) → (∀ r ∈ P, s ≤ r.time) →
+    T = Dtot ++ (S2 ++ P ++ buf.rows) ++ allRows rest →
+    (∀ n ∈ Dtot, n.endt ≤ s - 2 * wl - 1) →
+    ∃ outs st' cs cr,
+      iterLoop (spec1 (perRow wl wr g) (wl, wr) rid) kind ⟨optDict kind old, crd, s⟩ buf rest = .ok (outs, st') ∧
+      outs = cs.map (fun c => [(outType, c)]) ∧ st'.cachedResults = [(outType, cr)] ∧
+      allRows cs ++ cr.rows = ctxMap wl wr g T (P ++ buf.rows ++ allRows rest) := by
+  intro rest
+  induction rest with
+  | nil =>
+    intro old crd s buf Dtot S2 P hbg hbr hbd hrest hchain hold hS2 hP hT hD
+    have hbg' := hbg
+    simp only [Chunk.good, Bool.and_eq_true] at hbg'
+    obtain ⟨-, bse, -, -, -⟩ := (Chunk.wf_iff buf).1 hbg'.1
+    obtain ⟨inp, buf', hsp⟩ := split_good_early_ok hbg buf.stop
+    obtain ⟨i1, i2, i3, b1, b2, b3, i4, b4⟩ := split_at_stop bse hsp
+    obtain ⟨_, -, -, -, -, -, -, -, -, -, -, i5, b5, -, -, -, hig, hb'g⟩ := split_good' hbg hsp
+    have hold' : (old = none ∧ S2 = [] ∧ P = [] ∧ s ≤ inp.start) ∨
+      (∃ o, old = some o ∧ o.good = true ∧ o.dataType = inp.dataType ∧ o.runId = some rid ∧ o.stop = inp.start ∧
+        o.rows = S2 ++ P ∧ o.start ≤ s ∧ s ≤ o.stop) := by
+      rw [i1, i4, hbd]; exact hold
+    obtain ⟨out, cr, ci, Qo, Qc, D2, S2', hstep, hQ, hout, hcr, hQof, hQs, -⟩ :=
+      step1_good hg hwl hwr hig (by rw [i5, hbr]) hold' hS2 hP
+    rw [i3] at hQ hout hcr
+    refine ⟨[[(outType, out)]], ⟨[(kind, ci)], [(outType, cr)], cr.start⟩, [out], cr, ?_, rfl, rfl, ?_⟩
+    · unfold iterLoop
+      simp only [hsp, doCompute_spec1, hstep, b3]
+      rfl
+    · simp only [allRows, List.flatMap_cons, List.flatMap_nil, List.append_nil]
+      rw [hout, hcr, ← ctxMap_append, ← hQ]
+      apply ctxMap_congr
+      intro r hr
+      rw [hT]
+      simp only [allRows, List.flatMap_nil, List.append_nil]
+      have := filter_near_ctx wl wr r Dtot (S2 ++ P ++ buf.rows) [] (by
+        intro n hn
+        have h1 := hD n hn
+        have h2 := hQs r (by rw [← hQ]; exact hr)
+        omega) (by simp)
+      simpa using this.symm
+  | cons c rest ih =>
+    intro old crd s buf Dtot S2 P hbg hbr hbd hrest hchain hold hS2 hP hT hD
+    have hbg' := hbg
+    simp only [Chunk.good, Bool.and_eq_true] at hbg'
+    obtain ⟨-, bse, -, -, -⟩ := (Chunk.wf_iff buf).1 hbg'.1
+    obtain ⟨inp, buf', hsp⟩ := split_good_early_ok hbg buf.stop
+    obtain ⟨i1, i2, i3, b1, b2, b3, i4, b4⟩ := split_at_stop bse hsp
+    obtain ⟨_, -, -, -, -, -, -, -, -, -, -, i5, b5, -, -, -, hig, hb'g⟩ := split_good' hbg hsp
+    have hold' : (old = none ∧ S2 = [] ∧ P = [] ∧ s ≤ inp.start) ∨
+      (∃ o, old = some o ∧ o.good = true ∧ o.dataType = inp.dataType ∧ o.runId = some rid ∧ o.stop = inp.start ∧
+        o.rows = S2 ++ P ∧ o.start ≤ s ∧ s ≤ o.stop) := by
+      rw [i1, i4, hbd]; exact hold
+    obtain ⟨out, cr, ci, Qo, Qc, D2, S2', hstep, hQ, hout, hcr, hQof, hQs, hcig, hcid, hcir, hcie, hci1, hci2, hss,
+      hK1, hK2, hD2, hS2', hQc⟩ := step1_good hg hwl hwr hig (by rw [i5, hbr]) hold' hS2 hP
+    rw [i3] at hQ hout hcr
+    obtain ⟨hcg, hcr', hcd⟩ := hrest c (by simp)
+    obtain ⟨hch1, hch2⟩ := hchain
+    obtain ⟨rid', hr', hcat, hb2g⟩ := concat_good2 hb'g hcg (by rw [b2, hch1]) (by rw [b4, hbd, hcd]) (by rw [b5, hbr, hcr'])
+    rw [b5, hbr] at hr'
+    simp only [Option.some.injEq] at hr'
+    subst hr'
+    -- the recursive call
+    have hT' : T = (Dtot ++ D2) ++ (S2' ++ Qc ++ (buf'.rows ++ c.rows)) ++ allRows rest := by
+      rw [hT, allRows_cons, b3]
+      have e1 : S2 ++ P ++ buf.rows = S2 ++ (Qo ++ Qc) := by rw [List.append_assoc, hQ]
+      rw [e1, ← List.append_assoc S2 Qo Qc, hK1]
+      simp only [List.append_assoc, List.nil_append]
+    obtain ⟨outs2, st2, cs2, crf, hrec, hcs2, hcrf, hrows⟩ := ih (some ci) [(outType, cr)] cr.start
+      ⟨buf'.dataType, buf'.kind, some rid, buf'.start, c.stop, buf'.rows ++ c.rows, none,
+        [⟨rid, buf'.start, c.stop⟩], max buf'.target c.target⟩ (Dtot ++ D2) S2' Qc
+      hb2g rfl (by simp only; rw [b4, hbd])
+      (fun c' hc' => hrest c' (by simp [hc'])) hch2
+      (Or.inr ⟨ci, rfl, hcig, by rw [hcid, i4, hbd], hcir, by rw [hcie, i2, b1], hK2, hci1, hci2⟩)
+      hS2' hQc hT'
+      (by
+        intro n hn
+        rcases List.mem_append.1 hn with h | h
+        · have := hD n h; omega
+        · exact hD2 n h)
+    refine ⟨[(outType, out)] :: outs2, st2, out :: cs2, crf, ?_, by rw [hcs2]; rfl, hcrf, ?_⟩
+    · unfold iterLoop
+      simp only [hsp, doCompute_spec1, hstep, hcat]
+      have hrec' : iterLoop (spec1 (perRow wl wr g) (wl, wr) rid) kind
+          ⟨[(kind, ci)], [(outType, cr)], cr.start⟩ _ rest = .ok (outs2, st2) := hrec
+      rw [hrec']
+    · rw [allRows_cons, List.append_assoc, hrows, b3, allRows_cons]
+      simp only [List.nil_append]
+      have hout' : out.rows = ctxMap wl wr g T Qo := by
+        rw [hout]
+        apply ctxMap_congr
+        intro r hr
+        rw [hT]
+        have hlater := chain_rows_later (e := buf.stop) (rest := c :: rest) ⟨hch1, hch2⟩ (fun c' hc' => (hrest c' hc').1)
+        exact (filter_near_ctx wl wr r Dtot (S2 ++ P ++ buf.rows) (allRows (c :: rest)) (by
+          intro n hn
+          have h1 := hD n hn
+          have h2 := hQs r (by simp [hr])
+          omega) (by
+          intro n hn
+          have h1 := hlater n hn
+          have h2 := hQof r hr
+          rw [i2] at h2
+          omega)).symm
+      rw [hout', ← ctxMap_append, ← List.append_assoc Qo, ← List.append_assoc Qo, ← hQ]
+      simp only [List.append_assoc]
+
+/-! ### from the decidable hypothesis `Stream` to the invariant -/
+
+theorem disjointB_cons_cons (a b : Row) (l : List Row) :
+    disjointB (a :: b :: l) = (decide (a.endt ≤ b.time) && disjointB (b :: l)) := rfl
+
+theorem disjointB_tail {a : Row} {l : List Row} (h : disjointB (a :: l) = true) : disjointB l = true := by
+  cases l with
+  | nil => rfl
+  | cons b l => rw [disjointB_cons_cons, Bool.and_eq_true] at h; exact h.2
+
+theorem disjointB_append {a b : List Row} (h : disjointB (a ++ b) = true) : disjointB a = true ∧ disjointB b = true := by
+  induction a with
+  | nil => exact ⟨rfl, h⟩
+  | cons x a ih =>
+    have ht := ih (disjointB_tail h)
+    refine ⟨?_, ht.2⟩
+    cases a with
+    | nil => rfl
+    | cons y a =>
+      simp only [List.cons_append] at h
+      rw [disjointB_cons_cons, Bool.and_eq_true] at h
+      rw [disjointB_cons_cons, Bool.and_eq_true]
+      exact ⟨h.1, ht.1⟩
+
+theorem sorted_of_disjoint {l : List Row} (hd : disjointB l = true) (hp : PositiveRows l) : SortedByTime l := by
+  induction l with
+  | nil => trivial
+  | cons a l ih =>
+    cases l with
+    | nil => trivial
+    | cons b l =>
+      rw [disjointB_cons_cons, Bool.and_eq_true, decide_eq_true_eq] at hd
+      refine ⟨?_, ih hd.2 (fun r hr => hp r (by simp [hr]))⟩
+      have := hp a (by simp); omega
+
+theorem plain_good {dt kind rid : String} {c : Chunk} (hp : plainB dt kind rid c = true)
+    (hd : disjointB c.rows = true) : c.good = true ∧ c.runId = some rid ∧ c.dataType = dt ∧ c.kind = kind := by
+  simp only [plainB, Bool.and_eq_true, beq_iff_eq, decide_eq_true_eq, List.all_eq_true, Option.isNone_iff_eq_none] at hp
+  obtain ⟨⟨⟨⟨⟨⟨⟨h1, h2⟩, h3⟩, h4⟩, h5⟩, h6⟩, h7⟩, h8⟩ := hp
+  have hpos : PositiveRows c.rows := fun r hr => (h8 r hr).1.2
+  refine ⟨?_, h3, h1, h2⟩
+  simp only [Chunk.good, Bool.and_eq_true]
+  refine ⟨(Chunk.wf_iff c).2 ⟨h6, h7, sorted_of_disjoint hd hpos, hpos, fun r hr => ⟨(h8 r hr).1.1, (h8 r hr).2⟩⟩,
+    (Chunk.simple_iff c).2 ⟨h4, rid, h3, h5⟩⟩
+
+theorem chain_of_adjacent {c : Chunk} {rest : List Chunk} (h : adjacentB (c :: rest) = true) : Chain c.stop rest := by
+  induction rest generalizing c with
+  | nil => trivial
+  | cons d rest ih =>
+    simp only [adjacentB, Bool.and_eq_true, decide_eq_true_eq] at h
+    exact ⟨h.1.symm, ih h.2⟩
+
+theorem stream_parts {cs : List Chunk} (hs : Stream cs) :
+    ∃ c rest rid, cs = c :: rest ∧ c.runId = some rid ∧
+      (∀ c' ∈ c :: rest, c'.good = true ∧ c'.runId = some rid ∧ c'.dataType = c.dataType) ∧
+      Chain c.stop rest ∧ 0 ≤ c.start := by
+  unfold Stream streamB at hs
+  split at hs; · cases hs
+  rename_i c rest
+  split at hs; · cases hs
+  rename_i rid hrid
+  simp only [Bool.and_eq_true, List.all_eq_true] at hs
+  obtain ⟨⟨hall, hadj⟩, hdis⟩ := hs
+  have hd : ∀ c' ∈ c :: rest, disjointB c'.rows = true := by
+    intro c' hc'
+    obtain ⟨pre, post, hpp⟩ := List.append_of_mem hc'
+    rw [hpp] at hdis
+    simp only [List.flatMap_append, List.flatMap_cons] at hdis
+    exact (disjointB_append (disjointB_append hdis).2).1
+  refine ⟨c, rest, rid, rfl, hrid, ?_, chain_of_adjacent hadj, ?_⟩
+  · intro c' hc'
+    obtain ⟨g1, g2, g3, -⟩ := plain_good (hall c' hc') (hd c' hc')
+    exact ⟨g1, g2, g3⟩
+  · have := (plain_good (hall c (by simp)) (hd c (by simp))).1
+    simp only [Chunk.good, Bool.and_eq_true] at this
+    exact ((Chunk.wf_iff c).1 this.1).1
+
+/-- The whole-run theorem for a per-row computation given by an interval-preserving kernel: on a
+law-abiding chunking of a run of disjoint rows the plugin does not fail, and everything it yields,
+concatenated, is the computation over the whole run. -/
+theorem runOverlap_whole {g : Row → List Row → Row} (hg : Keeps g) {wl wr : Int} (hwl : 0 ≤ wl) (hwr : 0 ≤ wr)
+    {cs : List Chunk} (hs : Stream cs) :
+    ∃ outs, runOverlap (perRow wl wr g) (wl, wr) cs = .ok outs ∧ allRows outs = perRow wl wr g (allRows cs) := by
+  obtain ⟨c, rest, rid, rfl, hrid, hall, hchain, h0⟩ := stream_parts hs
+  obtain ⟨hcg, -, -⟩ := hall c (by simp)
+  obtain ⟨outs, st', ocs, cr, hloop, houts, hcr, hrows⟩ :=
+    iterLoop_whole hg hwl hwr rid c.kind c.dataType (allRows (c :: rest)) rest none [] 0 c [] [] []
+      hcg hrid rfl (fun c' hc' => hall c' (by simp [hc'])) hchain (Or.inl ⟨rfl, rfl, rfl, h0⟩)
+      (by simp) (by simp) (by simp [allRows_cons]) (by simp)
+  refine ⟨ocs ++ [cr], ?_, ?_⟩
+  · unfold runOverlap
+    simp only [hrid, runDicts]
+    have hloop' : iterLoop (spec1 (perRow wl wr g) (wl, wr) rid) c.kind State.init c rest = .ok (outs, st') := hloop
+    rw [hloop']
+    simp only [houts, hcr, mapE_single_append]
+  · have : allRows (ocs ++ [cr]) = allRows ocs ++ cr.rows := by simp [allRows]
+    rw [this, hrows, perRow_eq_ctxMap, allRows_cons]
+    simp
+
 end Strax.Overlap
